@@ -239,7 +239,7 @@ def multiline_test(line: str) -> bool:
     test if the current line is a multiline with "=" at the end
     :param line: 'O1 3 -0.01453 1.66590 0.10966 11.00 0.05 ='
     """
-    if line.rfind('=') > -1:
+    if line.split('!')[0].rstrip().endswith('='):
         # A '=' character in a rem line is not a line break!
         if line.startswith("REM") and not dsr_regex.match(line):
             return False
